@@ -95,6 +95,10 @@ func (c *absCtx) pathTerm(rel string) (term string, ok bool) {
 			if m := reExpand.FindStringSubmatch(parts[2]); m != nil {
 				return fmt.Sprintf("(PTmpDir %s %d)", q(dir), c.tmpID(parts[2])), true
 			}
+			if m := reTmp.FindStringSubmatch(parts[2]); m != nil {
+				// PackageData's temporary file for the rebuild of <hash>.dat.tar
+				return fmt.Sprintf("(PTmpFile %s %d)", q(dir), c.tmpID(parts[2])), true
+			}
 			if m := reMember.FindStringSubmatch(parts[2]); m != nil {
 				mem := map[string]string{"ctl.tar.gz": "MCtl", "sig.tar.gz": "MSig", "dat.tar.gz": "MDat", "dat.tar": "MTar"}[m[2]]
 				return fmt.Sprintf("(PMember %s %s %s)", q(dir), mem, q(m[1])), true
